@@ -1,10 +1,19 @@
 ----------------------------- MODULE Sorting_Gen -----------------------------
 (* B1 for C13: TLC enumerates small pools whose display order the specification  *)
-(* fixes completely (homogeneous, no two keys of equal rank) for every mode and  *)
-(* modifier, and prints each with the EXPECTED sequence; the Go driver sorts      *)
-(* every permutation of the pool with the real comparators / aggregators and      *)
-(* compares.  Phase 1 fixes (mode, universe); the step to phase 2 picks the pool  *)
-(* and the sort string (so TLC's workers share the work).                         *)
+(* fixes (homogeneous pools) for every mode and modifier, and prints each with    *)
+(* what the specification EXPECTS of the displayed sequence:                      *)
+(*   ranks[k] = number of keys the specification puts strictly before key k       *)
+(*              (keys of equal rank - "1" / "1.0", "mon" / "Monday", one instant   *)
+(*              in two spellings, equal totals - are tied: the specification does  *)
+(*              not say which comes first, only that it is the same every time)    *)
+(* The Go driver sorts every permutation of the pool with the real comparators /  *)
+(* aggregators; a result is accepted iff its ranks never decrease and it is the   *)
+(* one sequence all the other starts of that pool produced.                       *)
+(* Totals: a vector states its value map `vmap` (Sorting.tla "totals"): w = 0 -    *)
+(* the totals as they are; w > 0 - the pool's totals are w-bit integers handed to *)
+(* the code as Embed(64, w, off, v), so that differences of totals overflow.      *)
+(* Phase 1 fixes (mode, universe); the step to phase 2 picks the pool and the     *)
+(* sort string (so TLC's workers share the work).                                 *)
 EXTENDS Sorting, SortingUniv, Json
 
 CONSTANT Big        \* BOOLEAN: thorough tier (larger universes)
@@ -13,20 +22,33 @@ VARIABLES ph, gmode, univ, vec
 gvars == <<ph, gmode, univ, vec>>
 
 X(S, T) == IF Big THEN S \cup T ELSE S
-D1(S) == {s \in S : DateOf(s).lay = 1}
-D2s(S) == {s \in S : DateOf(s).lay = 2}
-D3(S) == {s \in S : DateOf(s).lay = 3}
-\* universes per mode: <<tag, set of names>>; every one is homogeneous for that mode
+Lay(S, n) == {s \in S : DateOf(s).lay = n}
 PlainText(S) == {s \in S : Kind("date", s) = "text"}        \* digit-free text
+IdMap == [w |-> 0, off |-> "zero"]
+\* a universe: class tag, names, whether pools with tied keys are generated, largest pool,
+\* totals and their value map.  Every universe is homogeneous for its mode.
+Un(cls, names, ties, max) == [cls |-> cls, names |-> names, ties |-> ties, max |-> max, vals |-> {1}, vmap |-> IdMap]
+ValNames == {<<97>>, <<97, 98>>, <<66>>, <<49, 48>>, <<50>>}
+Wide(w, off, names, max) == [cls |-> "value-w" \o ToString(w), names |-> names, ties |-> TRUE, max |-> max,
+                             vals |-> EmbedDomain(w, off), vmap |-> [w |-> w, off |-> off]]
 Univs(m) ==
-  CASE m = "text" -> {<<"any", X(UText, XText) \cup {<<49, 48>>, <<50>>, <<109, 111, 110>>, <<195, 169>>}>>}
-    [] m = "numeric" -> {<<"num", X(UNum, XNum)>>, <<"text", X(UText, XText) \cup UWeek>>}
-    [] m = "contextual" -> {<<"num", X(UNum, XNum)>>, <<"text", X(UText, XText)>>,
-                            <<"weekday", X(UWeek, XWeek)>>, <<"month", X(UMonth, XMonth)>>}
-    [] m = "date" -> {<<"date1", D1(UDate \cup XDate)>>, <<"date2", D2s(UDate \cup XDate)>>, <<"date3", D3(UDate \cup XDate)>>,
-                      <<"weekday", X(UWeek, XWeek)>>, <<"month", X(UMonth, XMonth)>>,
-                      <<"text", PlainText(UText \cup XText)>>}
-    [] m = "value" -> {<<"value", {<<97>>, <<97, 98>>, <<66>>, <<49, 48>>, <<50>>}>>}
+  CASE m = "text" -> {Un("any", X(UText, XText) \cup {<<49, 48>>, <<50>>, <<109, 111, 110>>, <<195, 169>>}, FALSE, 4)}
+    [] m = "numeric" -> {Un("num", X(UNum, XNum), TRUE, 4), Un("text", X(UText, XText) \cup UWeek, FALSE, 4)}
+    [] m = "contextual" -> {Un("num", X(UNum, XNum), FALSE, 4), Un("text", X(UText, XText), FALSE, 4),
+                            Un("weekday", X(UWeek, XWeek), TRUE, 4), Un("month", X(UMonth, XMonth), TRUE, 4)}
+    [] m = "date" -> {Un("date1", Lay(UDate \cup XDate, 1), FALSE, 4), Un("date2", Lay(UDate \cup XDate, 2), FALSE, 4),
+                      Un("date3", Lay(UDate \cup XDate, 3), FALSE, 4),
+                      Un("date4", Lay(UOff \cup XOff, 4), TRUE, 4), Un("date5", Lay(UOff \cup XOff, 5), TRUE, 4),
+                      Un("weekday", X(UWeek, XWeek), FALSE, 4), Un("month", X(UMonth, XMonth), FALSE, 4),
+                      Un("text", PlainText(UText \cup XText), FALSE, 4)}
+    [] m = "value" -> {[Un("value", ValNames, FALSE, 4) EXCEPT !.vals = {0, 1, 2, 7}],
+                       [Un("value-ties", {<<97>>, <<97, 98>>, <<66>>}, TRUE, 3) EXCEPT !.vals = {0, 1, 7}],
+                       Wide(3, "zero", {<<97>>, <<97, 98>>, <<66>>}, 3),
+                       Wide(3, "top", {<<97>>, <<66>>, <<49, 48>>}, 3),
+                       Wide(2, "lsb", {<<97>>, <<97, 98>>, <<66>>}, 3)}
+                      \cup (IF Big THEN {Wide(4, "top", {<<97>>, <<97, 98>>, <<66>>}, 3),
+                                         Wide(3, "one", {<<97>>, <<97, 98>>, <<66>>, <<50>>}, 3),
+                                         Wide(3, "lsb", {<<97>>, <<66>>}, 2)} ELSE {})
 
 Colon == <<58>>
 NameOf(m) == CASE m = "text" -> B_text [] m = "numeric" -> B_numeric [] m = "contextual" -> B_contextual
@@ -34,35 +56,33 @@ NameOf(m) == CASE m = "text" -> B_text [] m = "numeric" -> B_numeric [] m = "con
 SortsOf(m) == {NameOf(m), NameOf(m) \o Colon \o B_reverse, UpperASCII(NameOf(m)) \o Colon \o B_asc}
               \cup (IF Big THEN {} ELSE {NameOf(m) \o Colon \o B_desc})
               \cup (IF m = "contextual" THEN {B_context \o Colon \o B_rev} ELSE {})
-MaxPool == 4
-Vals == {0, 1, 2, 7}
+\* wide totals: both directions once (the modifier table is exercised by the other universes)
+SortsFor(m, u) == IF u.vmap.w = 0 THEN SortsOf(m) ELSE {NameOf(m), UpperASCII(NameOf(m)) \o Colon \o B_asc}
 
-\* pools: sequences (in TLC's set order) of 2..MaxPool distinct names of one universe, with
-\* values (all 1 except in value mode)
-Subsets(S) == {T \in SUBSET S : Cardinality(T) >= 2 /\ Cardinality(T) <= MaxPool}
-Keyed(T, m) ==
+\* pools: sequences (in TLC's set order) of 2..max distinct names of one universe, with totals
+Subsets(u) == {T \in SUBSET u.names : Cardinality(T) >= 2 /\ Cardinality(T) <= u.max}
+Keyed(T, u) ==
   LET names == SetToSeq(T) IN
-  IF m = "value" THEN {[k \in 1..Len(names) |-> [name |-> names[k], value |-> f[k]]] : f \in [1..Len(names) -> Vals]}
-  ELSE {[k \in 1..Len(names) |-> [name |-> names[k], value |-> 1]]}
+  {[k \in 1..Len(names) |-> [name |-> names[k], value |-> f[k]]] : f \in [1..Len(names) -> u.vals]}
 
 \* display order of `sort`
 Before(m, rev, a, b) == IF rev THEN SpecLess(m, b, a) ELSE SpecLess(m, a, b)
-Perms(n) == {p \in [1..n -> 1..n] : \A x \in 1..n, y \in 1..n : x # y => p[x] # p[y]}
 \* the specification fixes the whole sequence iff SpecLess is total on the pool
 Fixed(m, pool) == \A x \in 1..Len(pool), y \in 1..Len(pool) :
                     x # y => (SpecLess(m, pool[x], pool[y]) \/ SpecLess(m, pool[y], pool[x]))
-Expected(m, rev, pool) ==
-  CHOOSE p \in Perms(Len(pool)) : \A x \in 1..Len(pool), y \in 1..Len(pool) :
-                                     x < y => Before(m, rev, pool[p[x]], pool[p[y]])
+Ranks(m, rev, pool) ==
+  [x \in 1..Len(pool) |-> Cardinality({y \in 1..Len(pool) : Before(m, rev, pool[y], pool[x])})]
 
 NoVec == [none |-> TRUE]
 GInit == /\ ph = 1 /\ gmode \in Modes /\ univ \in Univs(gmode) /\ vec = NoVec
 GNext == /\ ph = 1 /\ ph' = 2 /\ UNCHANGED <<gmode, univ>>
-         /\ \E T \in Subsets(univ[2]) : \E pool \in Keyed(T, gmode) : \E srt \in SortsOf(gmode) :
+         /\ \E T \in Subsets(univ) : \E pool \in Keyed(T, univ) : \E srt \in SortsFor(gmode, univ) :
               /\ Determined(gmode, [k \in 1..Len(pool) |-> pool[k].name])
-              /\ Fixed(gmode, pool)
-              /\ vec' = [mode |-> gmode, cls |-> univ[1], sort |-> srt, pool |-> pool,
-                         expect |-> Expected(gmode, ParseSort(srt).rev, pool)]
+              /\ VMapOK(univ.vmap, {pool[k].value : k \in 1..Len(pool)})
+              /\ (univ.ties \/ Fixed(gmode, pool))
+              /\ vec' = [mode |-> gmode, cls |-> univ.cls, sort |-> srt, pool |-> pool, vmap |-> univ.vmap,
+                         fixed |-> Fixed(gmode, pool),
+                         ranks |-> Ranks(gmode, ParseSort(srt).rev, pool)]
 
 Dump == (ph = 2) => PrintT("VFJ " \o ToJson(vec))
 =============================================================================
